@@ -164,6 +164,24 @@ func (c *channel) enqueue(req request, responseChan chan<- response, streaming b
 		c.deleteRouter(req.msg.Metadata.MessageID)
 		return
 	case c.sendQ <- req:
+		// With a buffered sendQ the request may have been queued after the sender stopped.
+		if c.parentCtx.Err() != nil {
+			// not from this goroutine: the reply channel of a streaming call may be full
+			go c.failQueued()
+		}
+	}
+}
+
+// failQueued responds with an error to the requests that are still in the sendQ of a
+// closed channel. Each request is taken out of the queue by exactly one goroutine.
+func (c *channel) failQueued() {
+	for {
+		select {
+		case req := <-c.sendQ:
+			c.routeResponse(req.msg.Metadata.MessageID, response{nid: c.node.ID(), err: fmt.Errorf("channel closed")})
+		default:
+			return
+		}
 	}
 }
 
@@ -234,6 +252,8 @@ func (c *channel) sender() {
 	for {
 		select {
 		case <-c.parentCtx.Done():
+			// fail the requests that are still queued (non-zero send buffer)
+			c.failQueued()
 			return
 		case req = <-c.sendQ:
 		}
